@@ -211,22 +211,37 @@ class History:
         self.world = desc["world"]
         shims.reset_node_table()
         self.epoch = float(desc.get("epoch", _EPOCH))
-        self.disk = Disk()
+        self.scratch = None
+        if desc.get("file_stores"):
+            import tempfile
+
+            from model.stores import FileDisk
+
+            self.scratch = tempfile.mkdtemp(prefix="verif-files-", dir="/dev/shm" if os.path.isdir("/dev/shm") else None)
+            self.disk = FileDisk(self.scratch, desc["file_stores"])
+        else:
+            self.disk = Disk()
         self.records = []
         self.src_version = {}
         self.fresh = None  # instant
         self.h = hashlib.sha256()
 
+    def cleanup(self):
+        if self.scratch:
+            import shutil
+
+            shutil.rmtree(self.scratch, ignore_errors=True)
+            self.scratch = None
+
     def init_sources(self):
         """Give every pure source store an initial value."""
-        nodes = ref.by_id(self.world)
-        written_by = {n["writes"] for n in self.world["nodes"] if n.get("writes")}
+        written_by = ref.derived_stores(self.world)
         for n in self.world["nodes"]:
             if n["kind"] == "src" and n["store"] not in written_by:
                 self.update_source(n["store"])
 
     def pure_sources(self):
-        written_by = {n["writes"] for n in self.world["nodes"] if n.get("writes")}
+        written_by = ref.derived_stores(self.world)
         return [n["store"] for n in self.world["nodes"] if n["kind"] == "src" and n["store"] not in written_by]
 
     def update_source(self, name):
@@ -288,6 +303,7 @@ def _run_op(hist, op, idx, *, tape=None, uberjob_kwargs=None, client_wrap=None, 
         epoch=hist.epoch,
     )
     sim.now = hist.disk.now
+    sim.fail_start_at = faults.get("thread_start_fail")
     rt = Runtime(sim, world, hist.disk, built, faults=faults, cfg=cfg)
     rec.sim, rec.rt, rec.built = sim, rt, built
     rec.disk_before = hist.disk.snapshot()
@@ -371,11 +387,28 @@ def _run_op(hist, op, idx, *, tape=None, uberjob_kwargs=None, client_wrap=None, 
     body = client if client_wrap is None else (lambda: client_wrap(client, sim, rt, built, kwargs))
     random.seed(mix_seed(seed, "random"))
     RT[0] = rt
+    fs_plan = None
+    if hist.scratch:
+        from simkit import fs
+
+        def fs_hook(phase, opname, path):
+            if phase == "before" and not sim.aborted:
+                sim.yield_(("fs", opname))
+            rt.cut_point("fs-" + opname + "-" + phase, os.path.basename(path))
+
+        fs_plan = fs.FaultPlan(None, buffer_size=cfg.get("buffer_size", 8192), hook=fs_hook,
+                               stamp=lambda: hist.disk.tick(sim.time()))
+        rt.on_death = lambda: setattr(fs_plan, "dead", True)
+        fs.install(fs_plan)
     shims.install(gran=sc.get("gran", "opcode"))
     try:
         rec.result, rec.exc = sim.run(body)
     finally:
         shims.uninstall()
+        if fs_plan is not None:
+            from simkit import fs
+
+            fs.uninstall()
         RT[0] = None
         hist.disk.frozen = False
     hist.disk.now = sim.now
